@@ -81,7 +81,11 @@ impl Pattern {
     /// Allows to specify case sensitivity
     pub fn regex_with(pattern: &str, opts: &PatternOpts) -> Result<Pattern, PatternError> {
         let pattern = pattern.trim_start_matches('^');
-        let pattern = pattern.trim_end_matches('$');
+        // remove the end anchor, but not an escaped, i.e. literal dollar sign
+        let pattern = match pattern.strip_suffix('$') {
+            Some(p) if p.chars().rev().take_while(|c| *c == '\\').count() % 2 == 0 => p,
+            _ => pattern,
+        };
         let pattern = pattern.to_string();
 
         let anchored_regex = "^".to_string() + &Self::group(&pattern) + "$";
